@@ -207,6 +207,39 @@ def _f_trigger(d):
   d.apply(["BulkAddRecord", "T", [None, None], {"A": [1, 2], "B": [5, 6]}])
 
 
+def _f_trigger2(d):
+  """trigger-formula columns that other formulas read (G is evaluated before T1/T5 in the default order), one whose
+  formula raises where A is 0 (row 2 holds an error cell that remembers a falsy previous value)"""
+  d.apply(["AddTable", "T", [{"id": "A", "type": "Int", "isFormula": False},
+                             {"id": "B", "type": "Int", "isFormula": False},
+                             {"id": "G", "type": "Int", "isFormula": True, "formula": "($T1 or 0) * 2 + ($T5 or 0)"}]])
+  for name, deps, formula in (("T1", ["A"], CNT), ("T5", ["A", "T5"], CNT), ("E1", ["A"], "10 // $A")):
+    d.apply(["AddColumn", "T", name, {"type": "Int", "isFormula": False, "formula": formula, "recalcWhen": 0, "recalcDeps": None}])
+    d.apply(["UpdateRecord", "_grist_Tables_column", d.colref("T", name),
+             {"recalcDeps": ["L"] + [d.colref("T", x) for x in deps]}])
+  d.apply(["AddColumn", "T", "H", {"type": "Any", "isFormula": True, "formula": "$E1"}])
+  d.apply(["BulkAddRecord", "T", [None, None], {"A": [1, 0], "B": [5, 6]}])
+  d.apply(["UpdateRecord", "T", 1, {"A": 2}])
+
+
+def _f_cascade(d):
+  """two-level auto-removal cascades: N refers (with a display helper column) to rows of a summary table of P and is
+  itself summarised by that reference; N also has Ref/RefList DATA columns with default formulas pointing into P"""
+  d.apply(["AddTable", "P", [{"id": "Category", "type": "Text", "isFormula": False},
+                             {"id": "Amt", "type": "Int", "isFormula": False}]])
+  d.apply(["BulkAddRecord", "P", [None] * 3, {"Category": ["lab", "home", "home"], "Amt": [1, 2, 3]}])
+  d.apply(["CreateViewSection", d.tableref("P"), 0, "record", [d.colref("P", "Category")], None])
+  st = sorted(d.summary_tables())[0]
+  d.apply(["AddTable", "N", [{"id": "Cat", "type": "Ref:" + st, "isFormula": False},
+                             {"id": "Txt", "type": "Text", "isFormula": False}]])
+  d.apply(["UpdateRecord", "_grist_Tables_column", d.colref("N", "Cat"), {"visibleCol": d.colref(st, "Category")}])
+  d.apply(["SetDisplayFormula", "N", None, d.colref("N", "Cat"), "$Cat.Category"])
+  d.apply(["AddColumn", "N", "Own", {"type": "Ref:P", "isFormula": False, "formula": "P.lookupOne(Category='home')"}])
+  d.apply(["AddColumn", "N", "Revs", {"type": "RefList:P", "isFormula": False, "formula": "P.lookupRecords(Category='home')"}])
+  d.apply(["BulkAddRecord", "N", [None] * 3, {"Cat": [1, 0, 2], "Txt": ["x", "y", "z"]}])
+  d.apply(["CreateViewSection", d.tableref("N"), 0, "record", [d.colref("N", "Cat")], None])
+
+
 def _f_views(d):
   _f_basic(d)
   d.apply(["CreateViewSection", d.tableref("B"), 0, "record", None, None])   # new view with section of B
@@ -245,7 +278,7 @@ def _f_lookup(d):
 
 
 FIXTURES = {"basic": _f_basic, "types": _f_types, "twoway": _f_twoway, "summary": _f_summary,
-            "trigger": _f_trigger, "views": _f_views, "cycles": _f_cycles, "lookup": _f_lookup}
+            "trigger": _f_trigger, "trigger2": _f_trigger2, "cascade": _f_cascade, "views": _f_views, "cycles": _f_cycles, "lookup": _f_lookup}
 
 
 def build(name, replica=True):
@@ -394,7 +427,7 @@ RECORD_KINDS = ["UpdateRecord", "BulkUpdateRecord", "AddRecord", "BulkAddRecord"
                 "BulkRemoveRecord"]
 # ReplaceTableData (an importer-only action) is generated only where a check asks for it (C27)
 SCHEMA_KINDS = ["AddColumn", "RemoveColumn", "RenameColumn", "ModifyType", "ModifyFormula", "RenameTable",
-                "RemoveTable", "AddTable", "AddReverseColumn", "MetaCol", "Summary"]
+                "RemoveTable", "AddTable", "AddReverseColumn", "MetaCol", "Summary", "RemoveSection"]
 ALL_KINDS = RECORD_KINDS + SCHEMA_KINDS
 
 
@@ -421,6 +454,14 @@ def gen_action(h, d, pfx, pools):
     name = h.choice(pfx + "name", pools.names)
     return ["AddTable", name, [{"id": "A", "type": "Text", "isFormula": False},
                                {"id": "B", "type": "Any", "isFormula": True, "formula": "$A"}]]
+  if kind == "Fail":
+    # an action that always raises (unknown column): turns the bundle into a rolled-back one
+    return ["UpdateRecord", t0, 1, {"NoSuchColumn_": 1}]
+  if kind == "RemoveSection":
+    # removing widgets (the last widget of a summary table removes the table: auto-removal cascades) or a whole view
+    if h.bool(pfx + "view"):
+      return ["RemoveRecord", "_grist_Views", h.int(pfx + "viewid", 1, 5)]
+    return ["RemoveViewSection", h.int(pfx + "section", 1, 11)]
   if pools.max_tables:
     tables = tables[:pools.max_tables]
   t = h.choice(pfx + "table", tables)
@@ -752,7 +793,7 @@ def run_bundle_oracles(d, bundle, want, fault=None):
     r = check_direct(d, ag, bundle)
     if r:
       out.append(("C31", r))
-  if "C01" in want or "C03" in want:
+  if "C01" in want or "C03" in want or "C08" in want:
     undo = undo_reprs(ag)
     stored = stored_reprs(ag)
     try:
@@ -760,7 +801,16 @@ def run_bundle_oracles(d, bundle, want, fault=None):
     except Exception as ex:
       if "C01" in want:
         out.append(("C01", "ApplyUndoActions raised %s: %s" % (type(ex).__name__, str(ex)[:200])))
+      if "C08" in want:
+        r8 = check_schema(d.e)
+        if r8:
+          out.append(("C08", "after the rollback of a failed undo (%s): %s" % (type(ex).__name__, r8)))
       return True, out
+    if "C08" in want:
+      # applying the undo is itself a successful bundle
+      r8 = check_schema(d.e)
+      if r8:
+        out.append(("C08", "after undo: " + r8))
     r = snap_diff(snap(d.e), s0)
     if r and "C01" in want:
       out.append(("C01", "after undo: " + r))
